@@ -686,3 +686,120 @@ def c13_scenario(case):
                            "ch2": "none", "v2": "unset"}, table)
     return {"fp_obs": fo, "exc_obs": eo, "fp_ref": fr, "exc_ref": er, "fp_default": fd,
             "raw_obs": ro, "raw_ref": rr}
+
+
+# ---------------------------------------------------------------------------
+# C14: object life-cycles
+
+C14_PLSS_TEXT = "T154-R97W Sec 15 NE, Lots 1, 1, N/2, Sec 14 Lots 5 - 3, NE"
+C14_TRACT_TEXT = "Lots 1, 1, 5 - 3, NE, N/2SW/4, N/2SW/4"
+_SETTING_ATTRS = ["default_ns", "default_ew", "layout", "wait_to_parse", "parse_qq", "clean_qq", "sec_colon_required",
+                  "sec_colon_cautious", "suppress_lot_divs", "ocr_scrub", "segment", "qq_depth", "qq_depth_min",
+                  "qq_depth_max", "break_halves", "sec_within"]
+_TRACT_SETTING_ATTRS = ["default_ns", "default_ew", "parse_qq", "clean_qq", "suppress_lot_divs", "ocr_scrub", "qq_depth",
+                        "qq_depth_min", "qq_depth_max", "break_halves"]
+
+
+def _bag(xs):
+    return tuple(sorted(repr(x) for x in xs))
+
+
+def snap_tract(t):
+    return (t.trs, t.desc, t.pp_desc, tuple(t.lots), tuple(t.qqs), tuple(t.lots_qqs), tuple(t.ilots),
+            tuple(sorted(t.lot_acres.items())), tuple(t.aliquots_whole), _bag(t.w_flags), _bag(t.w_flag_lines),
+            _bag(t.e_flags), _bag(t.e_flag_lines), t.parse_complete, t.orig_index, t.orig_desc, t.source,
+            tuple(getattr(t, a, None) for a in _TRACT_SETTING_ATTRS))
+
+
+def snap_plss(d):
+    return (d.orig_desc, d.pp_desc, d.layout, d.current_layout, d.source,
+            tuple(getattr(d, a, None) for a in _SETTING_ATTRS), _bag(d.w_flags), _bag(d.w_flag_lines), _bag(d.e_flags),
+            _bag(d.e_flag_lines), d.desc_is_flawed, tuple(snap_tract(t) for t in d.tracts))
+
+
+def _h(x):
+    import hashlib
+    return int(hashlib.sha1(repr(x).encode("utf-8", "replace")).hexdigest()[:7], 16)
+
+
+def _b(x):
+    return x == "T"
+
+
+def _tract_cfg(a):
+    return "clean_qq.%s,qq_depth.%d" % (_b(a["clean"]), a["depth"])
+
+
+def _plss_cfg(a):
+    return "sec_colon_cautious.%s,parse_qq.%s,clean_qq.%s,%s" % (_b(a["cautious"]), _b(a["pq"]), _b(a["clean"]), a["ns"])
+
+
+def c14(case):
+    import pytrs
+    a = case["args"]
+    kind, ops = a["kind"], a["ops"]
+    events = []
+    obj = None
+    for seq, op in enumerate(ops):
+        ev = {"tid": case["id"], "seq": seq, "kind": kind, "op": op, "snap": 0, "ret": 0, "exc": "none"}
+        try:
+            name, kw = op["name"], op["kw"]
+            ret = None
+            if kind == "tract":
+                if name == "new":
+                    obj = pytrs.Tract(C14_TRACT_TEXT, "154n97w14", config=_tract_cfg(op["cfg"]))
+                elif name == "parse":
+                    k = {}
+                    if kw["clean"] != "-":
+                        k["clean_qq"] = _b(kw["clean"])
+                    if kw["depth"]:
+                        k["qq_depth"] = kw["depth"]
+                    ret = tuple(obj.parse(commit=op["commit"], **k))
+                elif name == "preprocess":
+                    k = {}
+                    if kw["clean"] != "-":
+                        k["clean_qq"] = _b(kw["clean"])
+                    ret = obj.preprocess(commit=op["commit"], **k)
+                elif name == "config":
+                    obj.config = _tract_cfg(op["cfg"])
+                ev["snap"] = _h(snap_tract(obj))
+            else:
+                if name == "new":
+                    obj = pytrs.PLSSDesc(C14_PLSS_TEXT, config=_plss_cfg(op["cfg"]), source="SRC")
+                elif name == "parse":
+                    k = {}
+                    if kw["cautious"] != "-":
+                        k["sec_colon_cautious"] = _b(kw["cautious"])
+                    if kw["pq"] != "-":
+                        k["parse_qq"] = _b(kw["pq"])
+                    if kw["clean"] != "-":
+                        k["clean_qq"] = _b(kw["clean"])
+                    if kw["ns"] != "-":
+                        k["default_ns"] = kw["ns"]
+                    r = obj.parse(commit=op["commit"], **k)
+                    ret = (tuple(snap_tract(t)[:16] for t in r),)
+                elif name == "parse_tracts":
+                    k = {}
+                    if kw["clean"] != "-":
+                        k["clean_qq"] = _b(kw["clean"])
+                    obj.parse_tracts(**k)
+                elif name == "preprocess":
+                    k = {}
+                    if kw["ns"] != "-":
+                        k["default_ns"] = kw["ns"]
+                    ret = obj.preprocess(commit=op["commit"], **k)
+                elif name == "config":
+                    obj.config = _plss_cfg(op["cfg"])
+                elif name == "sort":
+                    obj.sort_tracts("s")
+                elif name == "filter":
+                    obj.filter(lambda t: t.sec == "14", drop=op["commit"])
+                ev["snap"] = _h(snap_plss(obj))
+            ev["ret"] = _h(ret) if ret is not None else 0
+        except Exception as e:  # noqa
+            ev["exc"] = type(e).__name__
+            ev["exc_msg"] = str(e)[:200]
+            events.append(ev)
+            break
+        events.append(ev)
+    return {"events": events}
